@@ -55,15 +55,20 @@ class Driver:
         except Exception as e:  # noqa
             return ("raise", type(e).__name__)
 
-    @staticmethod
-    def _stamp(neutral, real):
-        # a point inserted without a time: feed the model the time the implementation assigned
+    def _stamp(self, neutral, real):
+        # a point inserted without a time: feed the model the time the implementation assigned, after checking that it
+        # is a clock value read during the call (between the harness's own clock reads around it)
+        from datetime import datetime, timezone
+        now = datetime.now(timezone.utc)
         for p, pt in zip(neutral, real):
             if p is not None and p["time"] is None and getattr(pt, "time", None) is not None:
-                p["time"] = us_of(pt.time)
+                ok = pt.time.tzinfo is not None and self._clock0 <= pt.time <= now
+                p["time"] = us_of(pt.time) if ok else BAD_TIME + 3
                 p["stamped"] = True
 
     def _points(self, pts):
+        from datetime import datetime, timezone
+        self._clock0 = datetime.now(timezone.utc)
         return [real_point(self.tf, p) if p is not None else "not a point" for p in pts]
 
     def _do(self, o):
